@@ -53,13 +53,20 @@ type seqCfg struct {
 	depth    int
 	maxSnaps int
 	prop     string
-	init     string // "" (empty) | "ab" (a1,b1 inserted, one snapshot taken and kept open)
+	init     string   // "" (empty) | "ab" (a1,b1 inserted, one snapshot taken and kept open) | "abc"
+	keys     []string // default {a,b}
+	// check, if set, is evaluated at every newly reached state (used by C09 / C10)
+	check func(e *nEnv, jc *JobCtx, fail func(kind, msg string))
+	salt  int // level policy variant
 }
 
 // seqOps lists the operations enabled in the current state, simplest first.
 func seqOps(e *nEnv, sc *seqCfg, phys []physVer) []nOp {
 	var ops []nOp
 	keys := []string{"a", "b"}
+	if sc.keys != nil {
+		keys = sc.keys
+	}
 	vals := []string{"1", "2"}
 	for _, k := range keys {
 		for _, v := range vals {
@@ -436,8 +443,14 @@ func runSeq(jc *JobCtx, sc seqCfg, firstOps []int) {
 		fail := func(kind, msg string) {
 			vrt.Fail(kind, msg+"  [history: "+strings.Join(hist, "; ")+"]")
 		}
-		if sc.init == "ab" {
-			for _, op := range []nOp{{kind: "put", w: 0, k: "a", v: "1"}, {kind: "put", w: 0, k: "b", v: "1"}, {kind: "snap"}} {
+		e.salt = sc.salt
+		if sc.init != "" {
+			iops := []nOp{{kind: "put", w: 0, k: "a", v: "1"}, {kind: "put", w: 0, k: "b", v: "1"}}
+			if sc.init == "abc" {
+				iops = append(iops, nOp{kind: "put", w: 0, k: "c", v: "1"})
+			}
+			iops = append(iops, nOp{kind: "snap"})
+			for _, op := range iops {
 				hist = append(hist, op.String())
 				if p := e.apply(op, &sc); p != "" {
 					fail("set-semantics", p)
@@ -521,6 +534,9 @@ func runSeq(jc *JobCtx, sc seqCfg, firstOps []int) {
 			if r, ok := seen[key]; !ok || r < remaining {
 				seen[key] = remaining
 			}
+			if sc.check != nil {
+				sc.check(e, jc, fail)
+			}
 		}
 		if pruned {
 			outcome = "merged"
@@ -569,7 +585,11 @@ func runSeq(jc *JobCtx, sc seqCfg, firstOps []int) {
 			rep.Samples = append(rep.Samples, fmt.Sprintf("%s: history [%s] -> %s", jc.Job.Name, strings.Join(hist, "; "), outcome))
 		}
 	}
-	jc.Sched(SchedOpts{Model: vrt.CostPreempt, Bound: 0, NoDetCheck: true, Outcome: func(r *vrt.Result) string { return outcome }}, body, nil)
+	horizon := 0
+	if sc.check != nil {
+		horizon = 50000000
+	}
+	jc.Sched(SchedOpts{Model: vrt.CostPreempt, Bound: 0, NoDetCheck: true, Horizon: horizon, Outcome: func(r *vrt.Result) string { return outcome }}, body, nil)
 	rep.Extra["distinct_states"] += int64(len(seen))
 	rep.Nontrivial = int64(len(seen))
 	rep.Bound = fmt.Sprintf("depth<=%d", sc.depth)
